@@ -1722,6 +1722,15 @@ impl Gen {
         }
     }
 
+    /// A faulty statement of the given kind, without touching the generator's beliefs.
+    pub fn fault_only(&mut self, kind: &FaultKind) -> String {
+        let saved = self.sym.clone();
+        let mut gi = GenInput::default();
+        let s = self.fault_statement(kind, &mut gi);
+        self.sym = saved;
+        s
+    }
+
     // ---------------------------------------------------------------- inputs
 
     fn pick_kind(&mut self) -> usize {
